@@ -20,6 +20,19 @@ ENVELOPE = 64.0
 
 
 def gen_seq(rng, maxlen=200):
+    """a sequence, in a fifth of the cases rescaled by a power of two between 2^-100 and 2^40 (the algorithms are scale covariant:
+    tolerances are relative, so the magnitude of the terms must not matter)"""
+    kind, seq, info = _gen_seq(rng, maxlen)
+    if rng.random() < 0.2 and kind != 'small-alphabet':
+        sc = 2.0 ** rng.randint(-100, 40)
+        seq = [v * sc for v in seq]
+        if info is not None:
+            info = (info[0] * sc, info[1])
+        kind = kind + '*2^k'
+    return kind, seq, info
+
+
+def _gen_seq(rng, maxlen=200):
     kind = rng.choice(['geo', 'geo', 'geo-dyadic', 'random', 'const-tail', 'alt', 'slow', 'small-alphabet'])
     n = rng.choice([rng.randint(1, 12), rng.randint(1, 40), rng.randint(1, maxlen)])
     if kind == 'geo':
